@@ -22,8 +22,12 @@ pub enum Event {
     Open { uri: String, version: i32, text: String },
     /// full-text sync: 0, 1 or several content changes (the last one wins)
     Change { uri: String, version: i32, texts: Vec<String> },
-    SemTok { uri: String },
-    UnknownRequest { method: String, uri: String, string_id: bool },
+    SemTok {
+        uri: String,
+        #[serde(default)]
+        id_kind: u8,
+    },
+    UnknownRequest { method: String, uri: String, id_kind: u8 },
     UnknownNotification { method: String, uri: String },
     ClientResponse { id: i32, error: bool },
     /// the transport delivers the previous notification a second time
@@ -83,11 +87,17 @@ pub fn uri_path(uri: &str) -> Option<String> {
     url.to_file_path().ok().map(|p| p.to_string_lossy().to_string())
 }
 
-fn req_id(index: usize, string_id: bool) -> RequestId {
-    if string_id {
-        RequestId::from(format!("req-{index}"))
-    } else {
-        RequestId::from(1000 + index as i32)
+/// Request ids are unique per session; the kind varies their JSON shape.
+fn req_id(index: usize, id_kind: u8) -> RequestId {
+    match id_kind {
+        1 => RequestId::from(format!("req-{index}")),
+        // a string that looks like a number, and (once per session at most: index 0) the empty string
+        2 => RequestId::from(format!("{}", 5000 + index)),
+        3 if index == 0 => RequestId::from(String::new()),
+        // 0 is a valid id (and falsy in many languages); initialize uses 1 and shutdown 2
+        4 if index == 0 => RequestId::from(0),
+        5 => RequestId::from(-(1000 + index as i32)),
+        _ => RequestId::from(1000 + index as i32),
     }
 }
 
@@ -101,12 +111,12 @@ pub fn event_message(ev: &Event, index: usize) -> Option<Message> {
             method: "textDocument/didChange".into(),
             params: json!({"textDocument": {"uri": expand_uri(uri), "version": version}, "contentChanges": texts.iter().map(|t| json!({"text": t})).collect::<Vec<_>>()}),
         }),
-        Event::SemTok { uri } => Message::Request(Request {
-            id: req_id(index, false),
+        Event::SemTok { uri, id_kind } => Message::Request(Request {
+            id: req_id(index, *id_kind),
             method: "textDocument/semanticTokens/full".into(),
             params: json!({"textDocument": {"uri": expand_uri(uri)}}),
         }),
-        Event::UnknownRequest { method, uri, string_id } => {
+        Event::UnknownRequest { method, uri, id_kind } => {
             let params = match method.as_str() {
                 "textDocument/hover" | "textDocument/completion" | "textDocument/definition" => {
                     json!({"textDocument": {"uri": expand_uri(uri)}, "position": {"line": 0, "character": 0}})
@@ -115,7 +125,7 @@ pub fn event_message(ev: &Event, index: usize) -> Option<Message> {
                 "textDocument/documentSymbol" | "textDocument/formatting" => json!({"textDocument": {"uri": expand_uri(uri)}, "options": {"tabSize": 2, "insertSpaces": true}}),
                 _ => json!({}),
             };
-            Message::Request(Request { id: req_id(index, *string_id), method: method.clone(), params })
+            Message::Request(Request { id: req_id(index, *id_kind), method: method.clone(), params })
         }
         Event::UnknownNotification { method, uri } => {
             let params = match method.as_str() {
